@@ -48,11 +48,12 @@ VARIABLES cfg, perm1,
           kver, sownK, \* version of the farmer's constants now / baked into the sown batches
           cause,     \* why a complete reap would fail: "none" | "build" | "merge" | "save"
           store,     \* ids delivered to the farmer's on-disk data (Harvester / Sampler)
+          extra,     \* number of other points harvested directly into the same data file by the session's Harvester (0..2)
           outcome,   \* of the last call
           value,     \* what the last successful reap returned, as sequence over all locations
           hist, steps
 
-vars == <<cfg, perm1, dir, B, bsz, rem, sown, batch, infoShuf, res, failing, hfn, dfn, kver, sownK, cause, store, outcome, value, hist, steps>>
+vars == <<cfg, perm1, dir, B, bsz, rem, sown, batch, infoShuf, res, failing, hfn, dfn, kver, sownK, cause, store, extra, outcome, value, hist, steps>>
 
 Missing == 0
 
@@ -98,7 +99,7 @@ Init == /\ cfg \in Configs
         /\ sown = <<>> /\ batch = <<>> /\ infoShuf = 0
         /\ res = <<>> /\ failing = cfg.failing /\ cause = cfg.cause
         /\ hfn = 1 /\ dfn = 0 /\ kver = 0 /\ sownK = 0
-        /\ store = {}
+        /\ store = {} /\ extra = 0
         /\ outcome = "none" /\ value = <<>>
         /\ hist = <<>> /\ steps = 0
 
@@ -123,10 +124,10 @@ RecordedShuffle ==
 (* Sower.__call__ / __exit__ - cropping.py:1074-1088: the first `rem` batches get one extra,
    whatever is left over at the end is written as a last (shorter) batch *)
 RECURSIVE Cut(_, _, _, _)
-Cut(seq, size, extra, i) ==
+Cut(seq, size, nlong, i) ==
     IF seq = <<>> THEN <<>>
-    ELSE LET len == Min2(Len(seq), size + (IF i <= extra THEN 1 ELSE 0))
-         IN  <<SubSeq(seq, 1, len)>> \o Cut(SubSeq(seq, len + 1, Len(seq)), size, extra, i + 1)
+    ELSE LET len == Min2(Len(seq), size + (IF i <= nlong THEN 1 ELSE 0))
+         IN  <<SubSeq(seq, 1, len)>> \o Cut(SubSeq(seq, len + 1, Len(seq)), size, nlong, i + 1)
 
 Sow ==
     /\ dir \in {"none", "deleted"}           \* "deleted": a second campaign on the same Crop object
@@ -138,7 +139,7 @@ Sow ==
     /\ infoShuf' = RecordedShuffle
     /\ res' = [i \in 1..ChosenB |-> "absent"]
     /\ outcome' = "ok"
-    /\ UNCHANGED <<cfg, perm1, failing, hfn, kver, cause, store, value, steps>>
+    /\ UNCHANGED <<cfg, perm1, failing, hfn, kver, cause, store, extra, value, steps>>
 
 Step == steps < MaxSteps /\ steps' = (IF Record THEN steps + 1 ELSE steps)
 
@@ -147,7 +148,7 @@ ReSow ==
     /\ dir = "present" /\ Step
     /\ outcome' = "ok"
     /\ dfn' = hfn                           \* prepare() saves the handle's function again
-    /\ UNCHANGED <<cfg, perm1, dir, B, bsz, rem, sown, batch, infoShuf, res, failing, hfn, kver, sownK, cause, store, value>>
+    /\ UNCHANGED <<cfg, perm1, dir, B, bsz, rem, sown, batch, infoShuf, res, failing, hfn, kver, sownK, cause, store, extra, value>>
 
 (* growing always un-pickles the function stored in the crop - cropping.py:1156-1158 *)
 Fails(i) == dfn = 1 /\ \E k \in 1..Len(batch[i]) : batch[i][k] \in failing
@@ -157,7 +158,7 @@ Grow(i, via) ==
     /\ IF Fails(i)
           THEN outcome' = "raised" /\ UNCHANGED res          \* nothing is written for a batch whose function raised
           ELSE outcome' = "ok" /\ res' = [res EXCEPT ![i] = "ok"]
-    /\ UNCHANGED <<cfg, perm1, dir, B, bsz, rem, sown, batch, infoShuf, failing, hfn, dfn, kver, sownK, cause, store, value>>
+    /\ UNCHANGED <<cfg, perm1, dir, B, bsz, rem, sown, batch, infoShuf, failing, hfn, dfn, kver, sownK, cause, store, extra, value>>
 
 MissingSeq == SelectSeq(Iota(B), LAMBDA i : res[i] = "absent")
 
@@ -173,45 +174,45 @@ GrowSeq(ids) ==
 GrowSet(S) ==
     /\ dir = "present" /\ Step /\ S # {} /\ S \subseteq 1..B
     /\ GrowSeq(SortedSeq(S))
-    /\ UNCHANGED <<cfg, perm1, dir, B, bsz, rem, sown, batch, infoShuf, failing, hfn, dfn, kver, sownK, cause, store, value>>
+    /\ UNCHANGED <<cfg, perm1, dir, B, bsz, rem, sown, batch, infoShuf, failing, hfn, dfn, kver, sownK, cause, store, extra, value>>
 
 (* Crop.grow_missing() = Crop.grow(missing_results()) *)
 GrowMissing ==
     /\ dir = "present" /\ Step
     /\ GrowSeq(MissingSeq)
-    /\ UNCHANGED <<cfg, perm1, dir, B, bsz, rem, sown, batch, infoShuf, failing, hfn, dfn, kver, sownK, cause, store, value>>
+    /\ UNCHANGED <<cfg, perm1, dir, B, bsz, rem, sown, batch, infoShuf, failing, hfn, dfn, kver, sownK, cause, store, extra, value>>
 
 (* the user corrects the function in the session (crop.fn = fixed); workers see it after a re-sow *)
 FixFn ==
     /\ dir = "present" /\ Step /\ hfn = 1
     /\ hfn' = 2
     /\ outcome' = "ok"
-    /\ UNCHANGED <<cfg, perm1, dir, B, bsz, rem, sown, batch, infoShuf, res, failing, dfn, kver, sownK, cause, store, value>>
+    /\ UNCHANGED <<cfg, perm1, dir, B, bsz, rem, sown, batch, infoShuf, res, failing, dfn, kver, sownK, cause, store, extra, value>>
 
 (* between two campaigns the user changes the farmer's constants (runner.constants = ...) *)
 ChangeConst ==
     /\ dir = "deleted" /\ Step /\ cfg.farmer # "none" /\ kver = 0
     /\ kver' = 1
     /\ outcome' = "ok"
-    /\ UNCHANGED <<cfg, perm1, dir, B, bsz, rem, sown, batch, infoShuf, res, failing, hfn, dfn, sownK, cause, store, value>>
+    /\ UNCHANGED <<cfg, perm1, dir, B, bsz, rem, sown, batch, infoShuf, res, failing, hfn, dfn, sownK, cause, store, extra, value>>
 
 Delete(i) ==
     /\ dir = "present" /\ Step /\ i \in 1..B /\ res[i] # "absent"
     /\ res' = [res EXCEPT ![i] = "absent"]
     /\ outcome' = "ok"
-    /\ UNCHANGED <<cfg, perm1, dir, B, bsz, rem, sown, batch, infoShuf, failing, hfn, dfn, kver, sownK, cause, store, value>>
+    /\ UNCHANGED <<cfg, perm1, dir, B, bsz, rem, sown, batch, infoShuf, failing, hfn, dfn, kver, sownK, cause, store, extra, value>>
 
 Corrupt(i) ==
     /\ dir = "present" /\ Step /\ i \in 1..B /\ res[i] = "ok"
     /\ res' = [res EXCEPT ![i] = "bad"]
     /\ outcome' = "ok"
-    /\ UNCHANGED <<cfg, perm1, dir, B, bsz, rem, sown, batch, infoShuf, failing, hfn, dfn, kver, sownK, cause, store, value>>
+    /\ UNCHANGED <<cfg, perm1, dir, B, bsz, rem, sown, batch, infoShuf, failing, hfn, dfn, kver, sownK, cause, store, extra, value>>
 
 CheckBad ==
     /\ dir = "present" /\ Step
     /\ res' = [i \in 1..B |-> IF res[i] = "bad" THEN "absent" ELSE res[i]]
     /\ outcome' = "ok"
-    /\ UNCHANGED <<cfg, perm1, dir, B, bsz, rem, sown, batch, infoShuf, failing, hfn, dfn, kver, sownK, cause, store, value>>
+    /\ UNCHANGED <<cfg, perm1, dir, B, bsz, rem, sown, batch, infoShuf, failing, hfn, dfn, kver, sownK, cause, store, extra, value>>
 
 (* fromDisk: Crop(name=, parent_dir=) alone - function (and farmer) are un-pickled from the crop;
    otherwise the session's own function / farmer object is attached again *)
@@ -219,13 +220,20 @@ Reload(fromDisk) ==
     /\ dir = "present" /\ Step
     /\ hfn' = IF fromDisk THEN dfn ELSE hfn
     /\ outcome' = "ok"
-    /\ UNCHANGED <<cfg, perm1, dir, B, bsz, rem, sown, batch, infoShuf, res, failing, dfn, kver, sownK, cause, store, value>>
+    /\ UNCHANGED <<cfg, perm1, dir, B, bsz, rem, sown, batch, infoShuf, res, failing, dfn, kver, sownK, cause, store, extra, value>>
+
+(* the user harvests other points directly with the session's Harvester, into the same data file *)
+DirectHarvest ==
+    /\ cfg.farmer = "harvester" /\ cfg.cause = "none" /\ dir # "deleted" /\ Step /\ extra < 2
+    /\ extra' = extra + 1
+    /\ outcome' = "ok"
+    /\ UNCHANGED <<cfg, perm1, dir, B, bsz, rem, sown, batch, infoShuf, res, failing, hfn, dfn, kver, sownK, cause, store, value>>
 
 FixCause ==
     /\ dir = "present" /\ Step /\ cause # "none"
     /\ cause' = "none"
     /\ outcome' = "ok"
-    /\ UNCHANGED <<cfg, perm1, dir, B, bsz, rem, sown, batch, infoShuf, res, failing, hfn, dfn, kver, sownK, store, value>>
+    /\ UNCHANGED <<cfg, perm1, dir, B, bsz, rem, sown, batch, infoShuf, res, failing, hfn, dfn, kver, sownK, store, extra, value>>
 
 -----------------------------------------------------------------------------
 (* Reaping - cropping.py:631-918, 1219-1283 *)
@@ -283,7 +291,7 @@ Reap(c, a) ==
             /\ value' = Placed
             /\ store' = IF cfg.farmer \in {"harvester", "sampler"} THEN store \cup Delivered ELSE store
             /\ dir' = IF CleanUp(c, a) THEN "deleted" ELSE dir
-    /\ UNCHANGED <<cfg, perm1, B, bsz, rem, sown, batch, infoShuf, res, failing, hfn, dfn, kver, sownK, cause>>
+    /\ UNCHANGED <<cfg, perm1, B, bsz, rem, sown, batch, infoShuf, res, failing, hfn, dfn, kver, sownK, cause, extra>>
 
 (* Observations the real crop must agree with after every call *)
 Obs == [prepared |-> dir = "present",
@@ -301,7 +309,7 @@ Do(A, name, args) ==
     /\ hist' = IF Record
                 THEN Append(hist, [a |-> name, args |-> args, post |-> Obs',
                                    value |-> IF name = "reap" /\ outcome' \in {"complete", "partial"} THEN value' ELSE <<>>,
-                                   store |-> store', k |-> sownK'])
+                                   store |-> store', k |-> sownK', extra |-> extra'])
                 ELSE hist
 
 On(name) == name \in Acts
@@ -321,10 +329,11 @@ DoFixFn == On("fix_fn") /\ Do(FixFn, "fix_fn", <<>>)
 DoCheckBad == On("check_bad") /\ Do(CheckBad, "check_bad", <<>>)
 DoReload == On("reload") /\ \E fd \in BOOLEAN : Do(Reload(fd), "reload", <<fd>>)
 DoChangeConst == On("campaign2") /\ Do(ChangeConst, "change_const", <<>>)
+DoDirectHarvest == On("direct_harvest") /\ Do(DirectHarvest, "direct_harvest", <<>>)
 DoFixCause == On("fix_cause") /\ Do(FixCause, "fix_cause", <<cause>>)
 
 Next == \/ DoSow \/ DoReSow \/ GrowAny \/ GrowSetAny \/ DoGrowMissing \/ DoFixFn
-        \/ DeleteAny \/ CorruptAny \/ DoCheckBad \/ DoReload \/ DoFixCause \/ DoChangeConst
+        \/ DeleteAny \/ CorruptAny \/ DoCheckBad \/ DoReload \/ DoFixCause \/ DoChangeConst \/ DoDirectHarvest
         \/ ReapAny \/ ReapPartialAny \/ ReapDefault
 
 Spec == Init /\ [][Next]_vars
@@ -377,6 +386,9 @@ PartialReapWorks ==
 RefusedUntouched ==
     [][outcome' = "refused" => UNCHANGED <<dir, res, batch, store>>]_vars
 
+(* C06: what was harvested directly into the same file is still there after the crop's reap *)
+DirectDataSurvives == [][extra' >= extra]_vars
+
 (* C12 *)
 DeleteOnlyAfterDelivery ==
     [][dir = "present" /\ dir' = "deleted" =>
@@ -403,5 +415,5 @@ EmitCase ==
         PrintT(<<"CASE", ToJson([cfg |-> cfg, n |-> N, perm1 |-> perm1, settings |-> Enumeration, axes |-> Axes,
                                  nb |-> B, bsz |-> bsz, rem |-> rem, batch |-> batch, hist |-> hist])>>)
 
-View == <<cfg, perm1, dir, B, bsz, rem, sown, batch, infoShuf, res, failing, hfn, dfn, kver, sownK, cause, store, outcome, value>>
+View == <<cfg, perm1, dir, B, bsz, rem, sown, batch, infoShuf, res, failing, hfn, dfn, kver, sownK, cause, store, extra, outcome, value>>
 =============================================================================
